@@ -136,6 +136,10 @@ class SimHost:
             raw_max_write=int(swarm.get("raw_max_write", 0)),
         )
         self.entropy = Entropy(seed)
+        # a fresh interpreter seeds the `random` module from the kernel; the simulated one from the simulated stream
+        import random as _random
+
+        _random.seed(self.entropy.take(32, "interp-seed"))
         self.clock = Clock(mode=swarm.get("clock", "advancing"))
         self.rare = {"sig": None, "key": None}
         self.fast_stack = bool(swarm.get("fast_stack", True))
